@@ -514,6 +514,7 @@ PROPS["C15"] = {
 }
 
 PROPS["C20"] = {
+    "realtime_families": ["dialc"],
     "lean": ["WsVerif.Props.C20", "WsVerif.Bridge.C20"],
     "rule": "ws.Dialer.Dial against a scripted, deadline-honouring net.Conn and NetDial, in real time (unit 40 ms): background and "
             "non-background contexts; no context end / cancel at 1,3,5 / context deadline at 3,5 units; Dialer.Timeout none, 3, 7 units "
